@@ -62,6 +62,9 @@ def run(tier):
     rep.extra["configuration_space"] = len(space)
     rnd.shuffle(space)
     chosen = space[:70 if quick else len(space)]
+    if not quick:
+        # thorough: every configuration with every output selection
+        chosen = [c for c in chosen for _ in SELECTIONS]
     scs = []
     for k, c in enumerate(chosen):
         sel = SELECTIONS[k % len(SELECTIONS)]
@@ -95,7 +98,7 @@ def run(tier):
                             files=[e for e in o["trace"]["ev"] if e["e"] == "files"]))
     rep.rule = ("configuration = save_every x limit_store x max_store x segmentation (TLC-enumerated) x output selection; "
                 "%s; non-trivial = every configuration (each stores or off-loads differently)" %
-                ("seeded sample of 70" if quick else "all"))
+                ("seeded sample of 70" if quick else "all, each with every output selection"))
     rep.assume("row identity: the DAE.store wrapper copies dae.x / dae.y at the moment of storing; comparisons are bit-for-bit "
                "(csv replay: 1e-10 because pandas' float parser is not exactly round-tripping)")
     return rep.finish()
